@@ -9,10 +9,14 @@
 //! M's own signature is always renewed. R is then run on (its honest previous data, tampered data).
 //!
 //! Oracle: R either rejects (preparation or uncatchable error; C02 demands prev untouched) or
-//! accepts. If it accepts: (1) its output verifies for this particle under the independent verifier,
-//! (2) every result attributed in the output to a peer other than M and R is one that peer really
-//! produced in the honest history of this particle, and (3) wherever the output of the same run on the
-//! untampered data has the same shape, such results sit at the same trace positions.
+//! accepts. If it accepts: (1) every result attributed in the output to a peer other than M and R is
+//! one that peer really produced in the honest history of this particle, (2) with exactly the content
+//! (value, tetraplet, argument hash, canon values) that peer produced behind its id, and (3) wherever the
+//! output of the same run on the untampered data has the same shape, such results sit at the same trace
+//! positions. Whether an accepted output still passes the independent verifier is reported as
+//! information only: the statement does not list the *kind* of a state (failed/executed) among the
+//! things a signature protects, and a receiver that follows a lying participant's version of the
+//! control flow may legitimately end up with data that others reject (see DESIGN.md 12.4).
 use super::honest::*;
 use crate::invoke::*;
 use crate::keys::Peer;
@@ -232,25 +236,32 @@ fn apply(op: &str, d: &mut Value, victim: &Peer, attacker: &Peer, k: usize, rng:
 struct Verdict {
     accepted: bool,
     problem: Option<(String, String)>,
+    /// accepted outputs only: does the output pass the independent verifier (information)
+    verifies: Option<bool>,
+}
+
+/// what is stored behind a call or canon result id
+fn content_of(data: &Value, cid: &str) -> Option<String> {
+    if let Some((v, t, a)) = proj::service_result(data, cid) {
+        return Some(format!("{v}|{t}|{a}"));
+    }
+    proj::canon_result(data, cid).map(|(t, vals)| format!("{t}|{:?}", vals))
 }
 
 /// R's reaction to tampered data, judged against the honest ground truth.
 #[allow(clippy::too_many_arguments)]
-fn judge(w: &World, r: usize, m: usize, out: &RunOutcome, honest_out: Option<&Value>, truth: &BTreeMap<String, BTreeSet<String>>, prev: &[u8]) -> Verdict {
+fn judge(w: &World, r: usize, m: usize, out: &RunOutcome, honest_out: Option<&Value>, truth: &BTreeMap<String, BTreeSet<String>>, truth_content: &BTreeMap<String, String>, prev: &[u8]) -> Verdict {
     match classify(out.ret_code) {
         CodeClass::Preparation | CodeClass::Uncatchable => {
             let problem = if out.data != prev { Some(("rejected-but-prev-not-returned".to_string(), format!("rejected with code {} but the previous data was not returned", out.ret_code))) } else { None };
-            Verdict { accepted: false, problem }
+            Verdict { accepted: false, problem, verifies: None }
         }
-        CodeClass::Other => Verdict { accepted: false, problem: Some((format!("panic-or-unknown-code@{}", out.ret_code), proj::trunc(&out.error_message, 200))) },
+        CodeClass::Other => Verdict { accepted: false, problem: Some((format!("panic-or-unknown-code@{}", out.ret_code), proj::trunc(&out.error_message, 200))), verifies: None },
         _ => {
             let v = match proj::decode(&out.data) {
                 Ok(v) => v.data,
-                Err(e) => return Verdict { accepted: true, problem: Some(("accepted-output-undecodable".into(), e)) },
+                Err(e) => return Verdict { accepted: true, problem: Some(("accepted-output-undecodable".into(), e)), verifies: None },
             };
-            if let Err(e) = verify::verify(&v, &w.particle_id) {
-                return Verdict { accepted: true, problem: Some(("accepted-output-unverifiable".into(), format!("the tampered data was accepted (code {}) and the output does not verify: {e}", out.ret_code))) };
-            }
             for (h, peer) in w.peers.iter().enumerate() {
                 if h == m || h == r {
                     continue;
@@ -259,10 +270,19 @@ fn judge(w: &World, r: usize, m: usize, out: &RunOutcome, honest_out: Option<&Va
                 let known = truth.get(&peer.id).unwrap_or(&empty);
                 for cid in cids_of_peer(&v, &peer.id) {
                     if !known.contains(&cid) {
-                        return Verdict { accepted: true, problem: Some(("forged-result-accepted".into(), format!("the output attributes result {} to {}, which never produced it in the honest history of this particle", proj::short(&cid), peer.name))) };
+                        return Verdict { accepted: true, verifies: None, problem: Some(("forged-result-accepted".into(), format!("the output attributes result {} to {}, which never produced it in the honest history of this particle", proj::short(&cid), peer.name))) };
+                    }
+                    // the id is genuine: so must be what is stored behind it (value, tetraplet, argument hash, canon values)
+                    if let (Some(want), got) = (truth_content.get(&cid), content_of(&v, &cid)) {
+                        if got.as_deref() != Some(want.as_str()) {
+                            return Verdict { accepted: true, verifies: None, problem: Some(("forged-content-accepted".into(), format!("the output keeps result {} of {} but stores {:?} behind it; {} produced {:?}", proj::short(&cid), peer.name, got.map(|g| proj::trunc(&g, 160)), peer.name, proj::trunc(want, 160)))) };
+                        }
                     }
                 }
             }
+            // information only (C03 speaks about honest histories; a receiver that accepts data of a lying
+            // participant may end up with data others reject): does the accepted output verify
+            let verifies = verify::verify(&v, &w.particle_id).is_ok();
             if let Some(hv) = honest_out {
                 let (a, b) = (proj::states(&v), proj::states(hv));
                 if a.len() == b.len() {
@@ -283,12 +303,12 @@ fn judge(w: &World, r: usize, m: usize, out: &RunOutcome, honest_out: Option<&Va
                             _ => false,
                         };
                         if !same {
-                            return Verdict { accepted: true, problem: Some(("relocated-result-accepted".into(), format!("trace position {i} holds result {} of another peer; merging the untampered data leaves {:?} there", proj::short(cid), y))) };
+                            return Verdict { accepted: true, verifies: Some(verifies), problem: Some(("relocated-result-accepted".into(), format!("trace position {i} holds result {} of another peer; merging the untampered data leaves {:?} there", proj::short(cid), y))) };
                         }
                     }
                 }
             }
-            Verdict { accepted: true, problem: None }
+            Verdict { accepted: true, problem: None, verifies: Some(verifies) }
         }
     }
 }
@@ -304,10 +324,16 @@ pub fn run(cfg: &Cfg) -> Report {
         }
         // ground truth: what every peer really produced for this particle
         let mut truth: BTreeMap<String, BTreeSet<String>> = BTreeMap::new();
+        let mut truth_content: BTreeMap<String, String> = BTreeMap::new();
         for s in &h.steps {
             if let Some(v) = &s.out_v {
                 for p in &w.peers {
-                    truth.entry(p.id.clone()).or_default().extend(cids_of_peer(v, &p.id));
+                    for cid in cids_of_peer(v, &p.id) {
+                        if let Some(c) = content_of(v, &cid) {
+                            truth_content.entry(cid.clone()).or_insert(c);
+                        }
+                        truth.entry(p.id.clone()).or_default().insert(cid);
+                    }
                 }
             }
         }
@@ -378,9 +404,13 @@ pub fn run(cfg: &Cfg) -> Report {
                         st.inc("tamperings", 1);
                         st.label("operations_applied", op);
                         st.seen("distinct_tamperings", fnv(&input.cur) ^ fnv(&input.prev).rotate_left(23));
-                        let verdict = judge(w, r, m, &out, honest_v.as_ref(), &truth, &input.prev);
+                        let verdict = judge(w, r, m, &out, honest_v.as_ref(), &truth, &truth_content, &input.prev);
                         if verdict.accepted {
                             st.inc("tamperings_accepted", 1);
+                            if verdict.verifies == Some(false) {
+                                st.inc("info_accepted_outputs_that_do_not_verify", 1);
+                                st.label("info_operations_leaving_unverifiable_output", op);
+                            }
                             st.label("operations_accepted_harmlessly_or_not", op);
                         } else {
                             st.inc("tamperings_rejected", 1);
